@@ -19,8 +19,8 @@ PROPS = {
     level=MC, engines=[('rel', 'eng_c01')],
     title='canonicity',
     technique='bounded exhaustive enumeration of whole function universes and of all API histories to a depth bound, executed on the real library, compared with truth tables',
-    rule='E1: every function of the universe |V|^points per (kind, shape, storage flag), each rebuilt by every other path (3 minterm-collection orders, accumulation, copy through every other kind and back, algebraic identities) and required to be the identical edge; E2: every history over the alphabet up to the depth bound, each on a fresh library instance. non-trivial = non-constant function (E1) / history of length >= 2 (E2); distinct by function index / history string',
-    bounds={'quick': 'universes <= 4096 functions (sets S1-S6, relations S1-S3 where they fit), histories depth 3 over ~50 symbols, 8 kinds x {optimistic,pessimistic}',
+    rule='E1: every function of the universe |V|^points per (kind, shape, storage flag), each rebuilt by every other path (3 minterm-collection orders, accumulation, copy through every other kind and back, algebraic identities) and required to be the identical edge; matrix products: every ordered pair of a relation family (whole universe up to 512 functions, else all two-value functions with <= 2 nonzero points + identity patterns) through MM_MULTIPLY from a quasi-reduced operand forest into a result forest of each reduction rule, required to be the identical edge of the product table computed with plain loops; E2: every history over the alphabet up to the depth bound, each on a fresh library instance. non-trivial = non-constant function (E1) / history of length >= 2 (E2); distinct by function index / history string',
+    bounds={'quick': 'universes <= 4096 functions (sets S1-S6, relations S1-S3 where they fit), matrix products on relation shapes S1-S4 x {MT int, MT real} x result rule {Q,F,I}, histories depth 3 over ~50 symbols, 8 kinds x {optimistic,pessimistic}',
             'thorough': 'universes <= 65536 functions (sets S1-S8, relations S1-S3), histories depth 4'},
     text='Exhaustive over the stated universes and history depth: injectivity of edge identity and identity of every rebuild path, on the real library with unique-table/handle-recycling state varied by histories.',
     note='bounded: tiny domains, alphabets of 2-4 values, history depth 3/4; harness builder and walker trusted',
